@@ -235,7 +235,7 @@ func TestC24(t *testing.T) {
 	p := &prop[c24Case]{
 		ID:   "C24",
 		Rule: "byte-mode rule sets of 1..4 rules (literals, class+, classes over bytes 0x80..0xff written with \\xHH, small random patterns), tokens 1..31, priorities 0..2, compiled by lex.Compile(scanBytes, no backtracking) and packed with shiftdfa.Pack; kept when both accept; in a third of the cases one rule uses a named pattern (an alternation or a sequence, as `{n0}x`, `{n0}+`, `x{n0}y?`). The same rules are also given as text to shiftdfa.Compile (named patterns through Options.Patterns). Inputs: all strings of length <=4 over the rules' first five symbols plus one byte >=0x80 and one unrelated byte, and 60 random byte strings (1/3 of the bytes >= 0x80). Scanner.Scan of both scanners must equal Tables.Scan(0, .) as (size, token). Non-trivial: inputs contain bytes >= 0x80 and the DFA has >=4 states or the rules mention such bytes; distinct by rules JSON.",
-		Quick: 15000, Thorough: 150000,
+		Quick: 15000, Thorough: 900000,
 		Gen:   c24Gen,
 		Check: c24Check,
 	}
